@@ -77,7 +77,7 @@ Subsume = mk("Subsume", "dominated dominating body")   # dominated <= dominating
 
 class Rel:
     def __init__(self, name, attrs, quals=(), choice=(), is_input=False, is_output=False, printsize=False,
-                 io_in=None, io_out=None, limitsize=None):
+                 io_in=None, io_out=None, limitsize=None, external=False):
         self.name = name
         self.attrs = tuple(attrs)   # ((name, type), ...)
         self.quals = tuple(quals)   # e.g. ('brie',), ('eqrel',), ('inline',)
@@ -85,6 +85,7 @@ class Rel:
         self.is_input, self.is_output, self.printsize = is_input, is_output, printsize
         self.io_in, self.io_out = io_in, io_out    # extra IO parameter strings
         self.limitsize = limitsize
+        self.external = external    # declared by raw text in Program.extra (e.g. inside a component): not printed
 
     @property
     def arity(self):
@@ -239,6 +240,8 @@ def print_program(p):
     out += p.extra
     out += p.types
     for r in p.rels.values():
+        if r.external:
+            continue
         out.append(print_decl(r))
         if r.is_input:
             out.append(".input " + r.name + (("(" + r.io_in + ")") if r.io_in else ""))
